@@ -9,7 +9,7 @@ for d in sorted(glob.glob(os.path.join(V, "seeded", "*", ""))):
     name = os.path.basename(os.path.dirname(d))
     s = (m.get("summary") or "").replace("\n", " ").replace("|", "/")
     s = re.split(r"(?<=[a-z\)])\. ", s)[0][:230]
-    det = ", ".join(m.get("detected_by") or []) or "**missed**"
+    det = ", ".join(m.get("detected_by") or []) or ("**not caught** - needs calls the service never makes, §10.7b" if m.get("missed_because") else "**missed**")
     how = ""
     for k, r in (m.get("verif_checks") or m.get("checks") or {}).items():
         for ln in r.get("lines", []):
